@@ -1567,6 +1567,8 @@ func (b *bsiGroup) baseValue(op pql.Token, value int64) (baseValue int64, outOfR
 			return baseValue, true
 		} else if value > min {
 			baseValue = int64(value - b.Base)
+		} else {
+			baseValue = int64(min - b.Base)
 		}
 	} else if op == pql.LT || op == pql.LTE {
 		if value < min {
